@@ -23,10 +23,12 @@ VARIABLES l,         \* next line of TraceLog
           steps,     \* env id -> step counter
           mode,      \* env id -> [fo, fa, f1]
           paidVal, paidDisc,   \* env id -> hosts paid in this episode (C05 history)
-          prev,      \* summary of the previous genstep (C07 pair clause)
+          prev,      \* summary of the previous genstep (C07 pair clause, C13 step = genstep)
+          grp,       \* summary of the first call of the current lock-step group (C12)
+          ndec,      \* env id -> number of parameter vectors decoded so far (C11)
           hist       \* coverage: <<kind, gate, luck>> -> count
 
-vars == <<l, raw, abs, initRaw, steps, mode, paidVal, paidDisc, prev, hist>>
+vars == <<l, raw, abs, initRaw, steps, mode, paidVal, paidDisc, prev, grp, ndec, hist>>
 
 HostIdxMap == [h \in Hosts |-> CHOOSE i \in 1..NHosts : HostOrder[i] = h]
 Idx(h) == HostIdxMap[h]
@@ -78,7 +80,9 @@ Init ==
     /\ l = 1
     /\ raw = <<>> /\ abs = <<>> /\ initRaw = <<>> /\ steps = <<>> /\ mode = <<>>
     /\ paidVal = <<>> /\ paidDisc = <<>>
-    /\ prev = [valid |-> FALSE]
+    /\ prev = <<>>
+    /\ grp = [id |-> -1]
+    /\ ndec = <<>>
     /\ hist = <<>>
 
 \* ------------------------------------------------------------------ create
@@ -102,6 +106,8 @@ CreateClauses(ev, rows) ==
        <<"C10", "dtype_float32", ev.obs.dtype = "float32" /\ ev.adv.space_dtype = "float32">>,
        <<"C10", "contains", ev.obs.in_space>>,
        <<"C11", "size_as_advertised", ev.adv.n_actions = NActions /\ ev.adv.scn_actions = NActions>>,
+       <<"C11", "param_space_dimensions", (~ev.modes.fa) => ev.adv.nvec = ParamNvec>>,
+       <<"C11", "flat_space_size", ev.modes.fa => ev.adv.space_n = NActions>>,
        <<"C08", "initial_observation",
          /\ \A h \in Hosts : o[h] = InitObsRow(InitSt, ev.modes.fo, h)
          /\ ev.obs.aux = ZeroRow>> >>
@@ -114,10 +120,13 @@ Create ==
        /\ initRaw' = Put(initRaw, e, rows)
        /\ abs' = Put(abs, e, IF RowsWellFormed(rows) THEN Decode(rows) ELSE InitSt)
        /\ steps' = Put(steps, e, 0)
-       /\ mode' = Put(mode, e, ev.modes)
+       /\ mode' = Put(mode, e, [fo |-> ev.modes.fo, fa |-> ev.modes.fa, f1 |-> ev.modes.f1,
+                               low |-> ev.adv.low, high |-> ev.adv.high])
+       /\ ndec' = Put(ndec, e, 0)
        /\ paidVal' = Put(paidVal, e, {})
        /\ paidDisc' = Put(paidDisc, e, {})
-    /\ UNCHANGED <<prev, hist>>
+    /\ prev' = Put(prev, Ev.env, [valid |-> FALSE])
+    /\ UNCHANGED <<grp, hist>>
     /\ l' = l + 1
 
 \* ------------------------------------------------------------------- reset
@@ -153,7 +162,7 @@ ResetEv ==
        /\ steps' = [steps EXCEPT ![e] = ev.steps_after]
        /\ paidVal' = [paidVal EXCEPT ![e] = {}]
        /\ paidDisc' = [paidDisc EXCEPT ![e] = {}]
-    /\ UNCHANGED <<initRaw, mode, prev, hist>>
+    /\ UNCHANGED <<initRaw, mode, prev, grp, ndec, hist>>
     /\ l' = l + 1
 
 \* ---------------------------------------------------------- step / genstep
@@ -179,8 +188,17 @@ RawClauses(ev, preRows, postRows) ==
          ev.obs.shape = (IF mode[e].f1 THEN <<(NHosts + 1) * RowLen>> ELSE ObsDims)>>,
        <<"C10", "dtype_float32", ev.obs.dtype = "float32">>,
        <<"C10", "contains", ev.obs.in_space>>,
+       <<"C10", "entries_within_space_bounds",
+         LET o == ObsRowsOf(ev.obs, postRows) IN
+         \A r \in SeqSet(ev.obs.same) \cup {ev.obs.explicit[j][1] : j \in 1..Len(ev.obs.explicit)} :
+            \A c \in 1..RowLen : LET x == o[HostOrder[r + 1]][c] IN mode[e].low <= x /\ x <= mode[e].high>>,
        <<"C10", "tuple_shapes",
          IF ev.ev = "step" THEN ev.arity = 5 /\ ev.types_ok ELSE ev.arity = 5>>,
+       <<"C09", "aux_positions",
+         /\ ev.obs.aux[1] = B(ev.info.success) /\ ev.obs.aux[2] = B(ev.info.conn)
+         /\ ev.obs.aux[3] = B(ev.info.perm) /\ ev.obs.aux[4] = B(ev.info.undef)
+         /\ \A c \in 5..RowLen : ev.obs.aux[c] = 0>>,
+       <<"C09", "flat_is_row_major", ev.obs.flat_sha = ev.obs.twod_sha>>,
        <<"C13", "argument_unchanged", ev.ev = "genstep" => ev.arg_sha[1] = ev.arg_sha[2]>>,
        <<"C13", "current_state_unchanged", ev.ev = "genstep" => ev.cur_sha[1] = ev.cur_sha[2]>>,
        <<"C13", "last_obs_unchanged", ev.ev = "genstep" => ev.lastobs_sha[1] = ev.lastobs_sha[2]>>,
@@ -206,18 +224,38 @@ HistClauses(ev, E) ==
 \* generative step yielded (the harness calls generative_step(current state)
 \* and then step with the same action and draw).
 PairClauses(ev, E) ==
-    IF ~prev.valid \/ prev.pre # E.pre \/ prev.a # E.a \/ prev.env # ev.env THEN <<>>
-    ELSE IF ev.ev = "genstep" /\ prev.luck # E.luck /\ ~AllPre(E.pre, E.a)
+    LET prv == prev[ev.env] IN
+    IF ~prv.valid \/ prv.pre # E.pre \/ prv.a # E.a THEN <<>>
+    ELSE IF ev.ev = "genstep" /\ prv.luck # E.luck /\ ~AllPre(E.pre, E.a)
       THEN << <<"C07", "pre_failed_outcome_independent_of_draw",
-                /\ prev.res.success = E.res.success /\ prev.res.value = E.res.value
-                /\ prev.post = E.post>> >>
-    ELSE IF ev.ev = "step" /\ prev.u = ev.u
+                /\ prv.res.success = E.res.success /\ prv.res.value = E.res.value
+                /\ prv.post = E.post>> >>
+    ELSE IF ev.ev = "step" /\ prv.u = ev.u
       THEN << <<"C13", "step_equals_genstep",
-                /\ prev.post = E.post /\ prev.postRows = E.postRow
-                /\ prev.res = E.res /\ prev.reward = E.reward /\ prev.term = E.term
-                /\ prev.aux = E.aux
-                /\ \A h \in Hosts : prev.obs[h] = E.obs[h]>> >>
+                /\ prv.post = E.post /\ prv.postRows = E.postRow
+                /\ prv.res = E.res /\ prv.reward = E.reward /\ prv.term = E.term
+                /\ prv.aux = E.aux
+                /\ \A h \in Hosts : prv.obs[h] = E.obs[h]>> >>
     ELSE <<>>
+
+\* C12: calls of one lock-step group (same scenario, same draws, semantically
+\* identical action, different mode combinations) must agree on state, reward,
+\* flags and info; observations of the same observability agree whatever
+\* the shape.  Only calls whose decoded action equals the group's are compared.
+HasGrp(ev) == "grp" \in DOMAIN ev
+GroupClauses(ev, E) ==
+    IF ~HasGrp(ev) THEN <<>>
+    ELSE IF grp.id # ev.grp \/ grp.ev # ev.ev THEN <<>>
+    ELSE IF grp.a # E.a \/ grp.u # ev.u THEN <<>>
+    ELSE << <<"C12", "lockstep_state_reward_flags_info_equal",
+              /\ grp.pre = E.pre /\ grp.post = E.post /\ grp.postRows = E.postRow
+              /\ grp.reward = E.reward /\ grp.term = E.term /\ grp.trunc = E.trunc
+              /\ grp.res = E.res /\ grp.aux = E.aux>>,
+            <<"C12", "same_observability_same_rows",
+              grp.fo = E.fo => \A h \in Hosts : grp.obs[h] = E.obs[h]>>,
+            <<"C12", "full_vs_masked_rows",
+              (grp.fo /\ ~E.fo) =>
+                 \A h \in Hosts : \A c \in NZCols(E.obs[h]) : E.obs[h][c] = grp.obs[h][c]>> >>
 
 StepEv ==
     /\ l <= N /\ Ev.ev \in {"step", "genstep"}
@@ -234,7 +272,7 @@ StepEv ==
            x == Trans(preSt, a, E.luck)
            failed == Failed(StepClauses(E) \o RawClauses(ev, preRows, postRows)
                             \o HistClauses(ev, E) \o PairClauses(ev, E)
-                            \o Drift(E))
+                            \o GroupClauses(ev, E) \o Drift(E))
                      \cup (IF okPre /\ okPost THEN {} ELSE {<<"C09", "status_columns_wellformed">>})
        IN
        /\ Report(failed, ev.i)
@@ -245,13 +283,18 @@ StepEv ==
                  /\ paidVal' = [paidVal EXCEPT ![e] = @ \cup {h \in Hosts : preSt[h].acc # 2 /\ postSt[h].acc = 2}]
                  /\ paidDisc' = [paidDisc EXCEPT ![e] = @ \cup {h \in Hosts : ~preSt[h].disc /\ postSt[h].disc}]
             ELSE UNCHANGED <<raw, abs, steps, paidVal, paidDisc>>
-       /\ prev' = IF ev.ev = "genstep"
-                    THEN [valid |-> TRUE, env |-> e, pre |-> preSt, a |-> a, luck |-> E.luck, u |-> ev.u,
+       /\ prev' = [prev EXCEPT ![e] = IF ev.ev = "genstep"
+                    THEN [valid |-> TRUE, pre |-> preSt, a |-> a, luck |-> E.luck, u |-> ev.u,
                           res |-> E.res, post |-> postSt, postRows |-> E.postRow,
                           reward |-> E.reward, term |-> E.term, aux |-> E.aux, obs |-> E.obs]
-                    ELSE [valid |-> FALSE]
+                    ELSE [valid |-> FALSE]]
+       /\ grp' = IF HasGrp(ev) /\ (grp.id # ev.grp \/ grp.ev # ev.ev)
+                   THEN [id |-> ev.grp, ev |-> ev.ev, a |-> a, u |-> ev.u, pre |-> preSt, post |-> postSt,
+                         postRows |-> E.postRow, reward |-> E.reward, term |-> E.term, trunc |-> E.trunc,
+                         res |-> E.res, aux |-> E.aux, fo |-> E.fo, obs |-> E.obs]
+                   ELSE grp
        /\ hist' = Bump(hist, <<a.kind, x.gate, E.luck>>)
-    /\ UNCHANGED <<initRaw, mode>>
+    /\ UNCHANGED <<initRaw, mode, ndec>>
     /\ l' = l + 1
 
 \* -------------------------------------------------------------------- goal
@@ -261,7 +304,87 @@ GoalEv ==
            rows == ApplyRows(raw[e], ev.pre_rows)
            st == IF RowsWellFormed(rows) THEN Decode(rows) ELSE abs[e] IN
        Report(Failed(<< <<"C06", "goal_query_any_state", ev.ans <=> Goal(st)>> >>), ev.i)
-    /\ UNCHANGED <<raw, abs, initRaw, steps, mode, paidVal, paidDisc, prev, hist>>
+    /\ UNCHANGED <<raw, abs, initRaw, steps, mode, paidVal, paidDisc, prev, grp, ndec, hist>>
+    /\ l' = l + 1
+
+\* ------------------------------------------------- action spaces (C11, C10)
+Proj(a) == a    \* an implementation Action object is logged with the fields of NASimCore!Act
+
+ActionsClauses(ev) ==
+    LET L == ev.list IN
+    << <<"C11", "size_as_advertised", Len(L) = NActions>>,
+       <<"C11", "flat_list_equals_spec",
+         Len(L) = NActions /\ \A k \in 1..NActions : L[k] = FlatAt(k)>>,
+       <<"C11", "no_duplicates", Cardinality(SeqSet(L)) = Len(L)>> >>
+
+ActionsEv ==
+    /\ l <= N /\ Ev.ev = "actions"
+    /\ Report(Failed(ActionsClauses(Ev)), Ev.i)
+    /\ UNCHANGED <<raw, abs, initRaw, steps, mode, paidVal, paidDisc, prev, grp, ndec, hist>>
+    /\ l' = l + 1
+
+DecodeClauses(ev) ==
+    LET want == DecodeParam(ev.vec) IN
+    << <<"C11", "param_decodes_as_spec", ev.got = want>>,
+       <<"C11", "param_is_noop_or_flat_member",
+         ev.got = NoopAct \/ \E k \in 1..NActions : FlatAt(k) = ev.got>> >>
+
+DecodeEv ==
+    /\ l <= N /\ Ev.ev = "decode"
+    /\ Report(Failed(DecodeClauses(Ev)), Ev.i)
+    /\ ndec' = [ndec EXCEPT ![Ev.env] = @ + 1]
+    /\ UNCHANGED <<raw, abs, initRaw, steps, mode, paidVal, paidDisc, prev, grp, hist>>
+    /\ l' = l + 1
+
+\* end of an exhaustive enumeration of the parameterised space
+ParamSpaceSize == ParamNvec[1] * ParamNvec[2] * ParamNvec[3] * ParamNvec[4] * ParamNvec[5] * ParamNvec[6]
+DecodeDoneEv ==
+    /\ l <= N /\ Ev.ev = "decode_done"
+    /\ Report(Failed(<< <<"C11", "whole_parameter_space_decoded", ndec[Ev.env] = ParamSpaceSize>> >>), Ev.i)
+    /\ ndec' = [ndec EXCEPT ![Ev.env] = 0]
+    /\ UNCHANGED <<raw, abs, initRaw, steps, mode, paidVal, paidDisc, prev, grp, hist>>
+    /\ l' = l + 1
+
+MaskEv ==
+    /\ l <= N /\ Ev.ev = "mask"
+    /\ LET ev == Ev  st == abs[ev.env] IN
+       Report(Failed(<< <<"C11", "mask_one_entry_per_action", Len(ev.mask) = NActions>>,
+                        <<"C11", "mask_iff_discovered",
+                          Len(ev.mask) = NActions /\
+                          \A k \in 1..NActions :
+                             ev.mask[k] = (IF st[FlatAt(k).target].disc THEN 1 ELSE 0)>>,
+                        <<"C13", "state_not_modified_between_calls", Len(ev.pre_rows) = 0>> >>), ev.i)
+    /\ UNCHANGED <<raw, abs, initRaw, steps, mode, paidVal, paidDisc, prev, grp, ndec, hist>>
+    /\ l' = l + 1
+
+\* ------------------------------------------- decoders / constructors (C09)
+ReadableOf(row) ==
+    LET d == DecodeRow(row) IN
+    [addr |-> <<IF d.subs = {} THEN 0 ELSE Min(d.subs), IF d.ids = {} THEN 0 ELSE Min(d.ids)>>,
+     comp |-> d.status.comp, reach |-> d.status.reach, disc |-> d.status.disc,
+     value |-> d.value, dvalue |-> d.dvalue, access |-> row[ColAcc],
+     os |-> d.os, srvs |-> d.srvs, procs |-> d.procs]
+
+ReadableMatches(rd, row) ==
+    LET want == ReadableOf(row) IN
+    /\ rd.addr = want.addr /\ rd.comp = want.comp /\ rd.reach = want.reach /\ rd.disc = want.disc
+    /\ rd.value = want.value /\ rd.dvalue = want.dvalue /\ rd.access = want.access
+    /\ SeqSet(rd.os) = want.os /\ SeqSet(rd.srvs) = want.srvs /\ SeqSet(rd.procs) = want.procs
+
+\* ev.rows: the raw array that was fed to the public constructor / decoder
+ReadableEv ==
+    /\ l <= N /\ Ev.ev = "readable"
+    /\ LET ev == Ev IN
+       Report(Failed(<< <<"C09", "readable_roundtrip",
+                          /\ Len(ev.readable) = Len(ev.rows)
+                          /\ \A r \in 1..Len(ev.rows) : ReadableMatches(ev.readable[r], ev.rows[r])>>,
+                        <<"C09", "from_numpy_roundtrip", Len(ev.roundtrip_diff) = 0 /\ ev.shape_ok>>,
+                        <<"C09", "aux_readable",
+                          ev.what = "obs" =>
+                             /\ ev.aux_readable.success = (ev.aux[1] # 0) /\ ev.aux_readable.conn = (ev.aux[2] # 0)
+                             /\ ev.aux_readable.perm = (ev.aux[3] # 0) /\ ev.aux_readable.undef = (ev.aux[4] # 0)>> >>),
+              ev.i)
+    /\ UNCHANGED <<raw, abs, initRaw, steps, mode, paidVal, paidDisc, prev, grp, ndec, hist>>
     /\ l' = l + 1
 
 \* ------------------------------------------------------------------ raised
@@ -270,16 +393,18 @@ GoalEv ==
 RaisedEv ==
     /\ l <= N /\ Ev.ev = "raised"
     /\ PrintT(<<"FAIL", Ev.prop, Ev.clause, Ev.i>>)
-    /\ UNCHANGED <<raw, abs, initRaw, steps, mode, paidVal, paidDisc, prev, hist>>
+    /\ UNCHANGED <<raw, abs, initRaw, steps, mode, paidVal, paidDisc, prev, grp, ndec, hist>>
     /\ l' = l + 1
 
 \* an event kind this monitor has no clauses for (validated by another module)
 OtherEv ==
-    /\ l <= N /\ Ev.ev \notin {"create", "reset", "step", "genstep", "goal", "raised"}
-    /\ UNCHANGED <<raw, abs, initRaw, steps, mode, paidVal, paidDisc, prev, hist>>
+    /\ l <= N /\ Ev.ev \notin {"create", "reset", "step", "genstep", "goal", "raised", "actions", "decode",
+                              "decode_done", "mask", "readable"}
+    /\ UNCHANGED <<raw, abs, initRaw, steps, mode, paidVal, paidDisc, prev, grp, ndec, hist>>
     /\ l' = l + 1
 
-Next == Create \/ ResetEv \/ StepEv \/ GoalEv \/ RaisedEv \/ OtherEv
+Next == Create \/ ResetEv \/ StepEv \/ GoalEv \/ RaisedEv \/ ActionsEv \/ DecodeEv \/ DecodeDoneEv
+        \/ MaskEv \/ ReadableEv \/ OtherEv
 
 Spec == Init /\ [][Next]_vars
 
